@@ -67,3 +67,28 @@ Theorem C07_cancelling_pair_accepted_iff_equal_weights :
     (weighted_sum B Bb Gs Hs l alphas = m0 <-> nth i alphas f0 = nth j alphas f0).
 Proof. intros; eapply cancelling_pair_accepted_iff_equal_weights; eassumption. Qed.
 Print Assumptions C07_cancelling_pair_accepted_iff_equal_weights.
+
+(* Two members whose residuals are multiples a.R and b.R of one point, the rest valid: accepted exactly when
+   alpha_i a + alpha_j b = 0 — one value of alpha_j when the weights are independent draws. *)
+Theorem C07_scaled_pair_accepted_iff :
+  forall (K : FieldOps) (FL : FieldLaws K) (MO : ModOps K) (ML : ModLaws MO) (B Bb : MO) (Gs Hs : list MO)
+         (l : list (verifier_out K MO * r1cs_proof K MO)) (alphas : list K) (i j : nat) (R : MO) (a b : K) vi vj,
+    i <> j -> nth_error l i = Some vi -> nth_error l j = Some vj -> length alphas = length l -> R <> m0 ->
+    mega_of B Bb Gs Hs vi = a • R -> mega_of B Bb Gs Hs vj = b • R ->
+    (forall k vp, nth_error l k = Some vp -> k <> i -> k <> j -> mega_of B Bb Gs Hs vp = m0) ->
+    (weighted_sum B Bb Gs Hs l alphas = m0 <-> (nth i alphas f0 * a + nth j alphas f0 * b)%F = f0).
+Proof. intros; eapply scaled_pair_accepted_iff; eassumption. Qed.
+Print Assumptions C07_scaled_pair_accepted_iff.
+
+(* Why the weights must be independent fresh draws (what the RNG-consumption correspondence of K10 ties to the
+   code): weights rho * c_k that share one secret factor, with publicly computable c_k, accept — for EVERY rho — a
+   batch with two invalid members whose residuals are c_j d . R and - c_i d . R. *)
+Theorem C07_shared_factor_weights_are_forgeable :
+  forall (K : FieldOps) (FL : FieldLaws K) (MO : ModOps K) (ML : ModLaws MO) (B Bb : MO) (Gs Hs : list MO)
+         (l : list (verifier_out K MO * r1cs_proof K MO)) (cs : list K) (rho d : K) (i j : nat) (R : MO) vi vj,
+    i <> j -> nth_error l i = Some vi -> nth_error l j = Some vj -> length cs = length l -> R <> m0 ->
+    mega_of B Bb Gs Hs vi = (nth j cs f0 * d)%F • R -> mega_of B Bb Gs Hs vj = (- (nth i cs f0 * d))%F • R ->
+    (forall k vp, nth_error l k = Some vp -> k <> i -> k <> j -> mega_of B Bb Gs Hs vp = m0) ->
+    weighted_sum B Bb Gs Hs l (map (fun c => (rho * c)%F) cs) = m0.
+Proof. intros; eapply shared_factor_weights_forgeable; eassumption. Qed.
+Print Assumptions C07_shared_factor_weights_are_forgeable.
